@@ -18,6 +18,21 @@ DEFAULT_RULE = ("cases come from harness/src/gen.rs (one SplitMix64 stream seede
                 "(at least one database/shell/sleep event, or a failure verdict)")
 
 PROPS = {
+    "C14": {
+        "runs": [{"profile": "c14", "n_quick": 1500, "n_thorough": 30000, "nontrivial": "include", "oracle": "c14"}],
+        "observable": "every record of parse_file with its file, line and chain of include sites (Display of Location), marker sequence | err kind + located chain; then the call trace of Runner::run_file on the tree (execution order)",
+        "explanation": "random trees on disk: up to 5 first-level and 3 second-level directories whose names make string order differ from path order (a, a-b, a.b, A), 6 file names, several includes per file, patterns literal / *.s* / x? / */x.slt / ./a/../a/x.slt / ../../shared/..., ~40% patterns matching nothing, parse errors inside included files, missing root, halt",
+        "trusted": ["glob crate beyond the modelled subset (literal, *, ? per component); patterns that match directories or non-UTF-8 files and include cycles crash the real parser and are outside the property (DESIGN section 8)"],
+    },
+    "C06": {
+        "runs": [
+            {"profile": "updatecorner", "n_quick": 0, "n_thorough": 0, "nontrivial": "update"},
+            {"profile": "update", "n_quick": 2500, "n_thorough": 60000, "nontrivial": "update"},
+        ],
+        "observable": "bytes of every file of the tree after Runner::update_test_file; oracle on the implementation alone (representable answers only): the rewritten tree parses, Runner::run_file with a fresh instance of the same scripted database returns Ok, a second update leaves every byte unchanged",
+        "explanation": "random include trees with ~50% wrong expectations (see C07) + 5 corner cases at the excluded points of the theorems (values with non-ASCII edge white space, empty value, query error [retry] on an engine without column types); cases whose answers are not representable in the format (failing commands, three consecutive newlines in an error text / stdout, CR) are generated, compared with the model, and not judged by the re-run oracle",
+        "assumptions": ["regex::escape soundness (is_match(escape(t), t)) is a hypothesis of update_accepts; the real crate is exercised by the re-run oracle"],
+    },
     "C18": {
         "runs": [
             {"profile": "c18hash", "n_quick": 10000, "n_thorough": 200000, "nontrivial": "any"},
